@@ -40,6 +40,8 @@ type Case struct {
 	Arm string `json:"arm,omitempty"`
 	// fam "text": a verbatim program (harness-generated mutations of real programs)
 	Text string `json:"text,omitempty"`
+	// Patient: reproduction run with a long watchdog (tells slow from wedged on a loaded machine)
+	Patient bool `json:"patient,omitempty"`
 }
 
 // Obs is the projected reply of the API.
@@ -78,7 +80,7 @@ var kindJS = map[string]string{
 	"cyclicArr": "(function(){var a=[1]; a[1]=a; return a})()",
 	"cyclicObj": "(function(){var o={a:1}; o.self=o; return o})()",
 	"loneSurr":  "String.fromCharCode(55296)",
-	"deepArr":   "(function(){var a=[]; for (var i=0;i<20000;i++) a=[a]; return a})()",
+	"deepArr":   "(function(){var a=[]; for (var i=0;i<3000;i++) a=[a]; return a})()",
 	"hugeLen":   "({length:4294967295})", "negLen": "({length:-1})",
 	"goStruct": "C02_struct", "goMapSI": "C02_mapsi", "goMapIS": "C02_mapis", "goSlice": "C02_slice", "goFunc": "C02_func",
 }
@@ -336,6 +338,17 @@ func Render(c *Case) string {
 		a, _ := exprs(c.Args)
 		return fmt.Sprintf("[%s] %s  this=%s  args=(%s)", c.Route, c.Fn, r, a)
 	case "src":
+		if c.Rep > 0 {
+			cc := *c
+			cc.Rep = 1
+			cc.Bytes = nil
+			cc.Close = nil
+			o := bytesOf(&cc)
+			cc.Open, cc.Close = nil, c.Close
+			cl := bytesOf(&cc)
+			cc.Close, cc.Rep, cc.Bytes = nil, 0, c.Bytes
+			return fmt.Sprintf("[%s] %q x %d + %q + %q x %d", c.API, o, c.Rep, bytesOf(&cc), cl, c.Rep)
+		}
 		s := bytesOf(c)
 		return fmt.Sprintf("[%s] %q", c.API, trunc(s, 200))
 	case "rec":
@@ -486,6 +499,9 @@ func exec1(c *Case, onVM func(*otto.Otto)) Obs {
 			obs.Post = postPhase(vm, res)
 		}
 	case "src", "text":
+		if strings.HasPrefix(c.API, "selftest-") {
+			return selfTestCase(vm, c.API)
+		}
 		src := c.Text
 		if c.Fam == "src" {
 			src = bytesOf(c)
@@ -564,6 +580,10 @@ func exec1(c *Case, onVM func(*otto.Otto)) Obs {
 	}
 	// the runtime must remain usable after any reply (no wedge, no leaked context)
 	if obs.Kind == "value" || obs.Kind == "error" {
+		select { // an interrupt armed by the watchdog that the call did not need
+		case <-vm.Interrupt:
+		default:
+		}
 		after := guard(func() error {
 			v, err := vm.Run("1+1")
 			if err != nil {
@@ -582,4 +602,25 @@ func exec1(c *Case, onVM func(*otto.Otto)) Obs {
 		}
 	}
 	return obs
+}
+
+// selfTestCase provokes, on purpose, what the executor must be able to observe.
+func selfTestCase(vm *otto.Otto, api string) Obs {
+	switch api {
+	case "selftest-panic":
+		vm.Set("boom", func(call otto.FunctionCall) otto.Value { panic(fmt.Errorf("foreign Go error")) })
+		return guard(func() error { _, err := vm.Run("boom()"); return err })
+	case "selftest-wedge":
+		vm.Set("spin", func(call otto.FunctionCall) otto.Value {
+			for {
+				time.Sleep(time.Second)
+			}
+		})
+		return guard(func() error { _, err := vm.Run("spin()"); return err })
+	case "selftest-fatal":
+		var f func(int) int
+		f = func(n int) int { return f(n+1) + 1 }
+		return guard(func() error { f(0); return nil })
+	}
+	return Obs{Kind: "harness", Msg: "unknown self test"}
 }
